@@ -2,7 +2,7 @@
 import io, os, re, shutil, subprocess, sys, tokenize, itertools
 from lib import terms, coqrun
 from lib.terms import g_str, g_list, g_pair, g_N
-from props.cli_gen import Gen, HEADER, SPECIAL_ATOMS
+from props.cli_gen import Gen, HEADER, SPECIAL_ATOMS, nocode_program, split_text, open_ended_sources
 
 ID = 'C19'
 IMPORTS = ['Cli.Comment', 'Cli.Cli', 'Cli.RunCli']
@@ -17,7 +17,9 @@ RULE = ('cli cases: the real command line (python -m yldprolog.compiler, one sub
         'and to -o, compared with the model command line (Cli/Cli.v) running over the model compiler (compile_text) evaluated in Coq '
         'on the same texts: which texts compile, exit status, kind of ending, error message, stdout and output file (exactly, or '
         'after removing comment lines for runs with parser/generator debugging); comment/strip cases: the text functions on generated '
-        'messages. Non-trivial: a cli case in which '
+        'messages. Sources include programs with predicates of 1-3 clauses none of which generates code (body starts with fail; '
+        'placeholder bodies) next to predicates that never succeed but generate code, and SEQUENCES of sources that are one text cut '
+        'into pieces (each source ends inside a comment / quoted atom / clause / bracket / operator that the next would complete). Non-trivial: a cli case in which '
         'some source contains a quoted atom with a line-break character of str.splitlines or non-ASCII text (so that debug '
         'messages carry it), or in which a source fails to compile; a comment case whose message contains at least two '
         'different kinds of line boundary. Distinct by hash of the case.')
@@ -127,7 +129,7 @@ def gen_cli_case(rng, g):
             k = rng.choice(['syntax', 'syntax', 'syntax', 'head', 'head', 'visitor', 'visitor', 'badutf8', 'badutf8', 'missing', 'missing',
                             'toolarge', 'bignum'])
         else:
-            k = rng.choice(['good', 'good', 'anon', 'anon', 'anon', 'rich', 'never', 'empty'])
+            k = rng.choice(['good', 'good', 'anon', 'anon', 'anon', 'rich', 'never', 'empty', 'nocode', 'nocode', 'nocode'])
         kinds.append(k)
         if k == 'good':
             text = _small(g.program)
@@ -139,6 +141,9 @@ def gen_cli_case(rng, g):
             text = _small(g.anon_program)
         elif k == 'never':
             text = g.never_succeeds()
+        elif k == 'nocode':
+            # predicates of 1-3 clauses none of which generates code (placeholder bodies), in every flag combination
+            text = _small(lambda: nocode_program(g))
         elif k == 'empty':
             text = rng.choice(['', '\n', '% only a comment\n'])
         elif k == 'syntax':
@@ -168,6 +173,29 @@ def gen_cli_case(rng, g):
             else:
                 files.append([names[i], text])
                 sources.append(names[i])
+    if nsrc >= 2 and rng.random() < 0.3:
+        # a SEQUENCE of sources that is one text cut into pieces: each source ends inside a construct (comment, quoted atom,
+        # clause, bracket, operator, name) that the beginning of the next one would complete.  Every source is a text of its own.
+        ok = [i for i in range(nsrc) if kinds[i] not in ('missing', 'badutf8')]
+        pairs = [(a, b) for a, b in zip(ok, ok[1:]) if b == a + 1]
+        if pairs:
+            a, b = rng.choice(pairs)
+            if rng.random() < 0.5:
+                base = _small(lambda: g.program(nclauses=rng.choice([2, 3, 4])))
+                pieces, _ = split_text(rng, base, 2) if len(base) > 1 else (['p(a', ').\n'], None)
+                if len(pieces) != 2:
+                    pieces = ['p(a', ').\n']
+            else:
+                pieces = list(open_ended_sources(rng, _small(lambda: g.program(nclauses=rng.choice([0, 1, 2]))),
+                                                 _small(lambda: g.program(nclauses=rng.choice([0, 1, 2])))))
+            for i, t in zip((a, b), pieces):
+                kinds[i] = 'piece'
+                if sources[i] == '-':
+                    stdin = ['text', t]
+                else:
+                    for f in files:
+                        if f[0] == sources[i]:
+                            f[1] = t
     if stdin is not None and rng.random() < 0.15:
         sources.append('-')        # a second `-` reads an empty stdin
     if rng.random() < 0.12 and len(files) >= 1 and rng.random() < 0.5:
@@ -186,6 +214,15 @@ def gen(rng, tier):
     ncli, ntext = (28, 400) if tier == 'quick' else (240, 4000)
     g = Gen(rng, special=0.3)
     cli = [gen_cli_case(rng, g) for _ in range(ncli)]
+    # SIZE CLASS of texts: sources of 8-17 kB made of hundreds of small clauses (generator shared with C10), alone or after a small source
+    from props import c10 as _c10
+    for i in range(1 if tier == 'quick' else 6):
+        big = _c10.g_large(rng, ['facts', 'clauses', 'facts+'][i % 3], rng.choice([8200, 8700] if tier == 'quick' else [8200, 10000, 16400]))[0]
+        files, sources = [['table.pl', big]], ['table.pl']
+        if i % 2:
+            files.insert(0, ['a.pl', _small(g.program)]); sources.insert(0, 'a.pl')
+        cli.insert((i * 7 + 3) % len(cli), {'kind': 'cli', 'files': files, 'sources': sources, 'stdin': ['text', ''],
+                                             'outfile': 'out.py', 'modesalt': i % 2, 'combos': 'all'})
     if tier == 'quick':
         # all 16 flag combinations over every two consecutive cases (8 + the plain run per case)
         for i, c in enumerate(cli):
@@ -242,6 +279,12 @@ def builtin_corpus():
     cli([['a.pl', good], ['big.pl', 'p :- ' + ', '.join(['q'] * 25) + '.\n']], ['a.pl', 'big.pl'])    # too large: CompilerError at 0:0
     cli([['a.pl', good], ['num.pl', 'p(' + '1' * 4400 + ').\n']], ['a.pl', 'num.pl', 'a.pl'])      # ValueError: traceback
     cli([['a.pl', good]], ['a.pl', '-'], stdin=nl, outfile='-')                                       # -o - is stdout
+    # predicates none of whose clauses generates code (one, two, three clauses; with arguments), next to one that does
+    cli([['a.pl', 'k(a).\nnone :- fail.\nnone :- true, fail, k(X).\nnone :- fail, !.\ntwo(X, Y) :- fail, k(X).\ntwo(X, Y) :- fail.\none :- fail.\n']], ['a.pl'])
+    cli([['a.pl', 'none :- fail.\nk(a) :- fail.\nnone :- ( fail, k ).\nk(b) :- \\+ true.\n']], ['-', 'a.pl'], stdin='z :- fail.\nz :- fail.\n')
+    # one text cut into two sources: inside a quoted atom, and before the full stop
+    cli([['a.pl', "k(1).\np('ab"], ['b.pl', "cd').\n"]], ['a.pl', 'b.pl'])
+    cli([['a.pl', 'k(1) :- k(2)']], ['a.pl', '-'], stdin=', k(3).\nk(4).\n')
     return L
 
 # ------------------------------------------------------------------ implementation side
